@@ -153,6 +153,7 @@ func isSigPair(x, y ssa.Value) bool {
 
 func runC02(c *Ctx) {
 	r := c.R
+	defer rulePeekLifetime(c, "R2.6", "C02: the id that selects CRC_EXTRA and the payload that is checksummed must be the received ones")
 	r.NotDecided = append(r.NotDecided,
 		"that X25.Write's arithmetic equals CRC-16/MCRF4XX for all 2^24 (state, byte) pairs: a value identity with no code-shape witness short of freezing the expression",
 		"delivery of every valid frame as an observed behaviour")
